@@ -56,7 +56,7 @@ def run(ctx):
         "the --file-name filter, --show-fields and directory traversal are not exercised (file-level update, with and without --include/--exclude)",
     ]
     ctx.regen()
-    ctx.prove(["TsVerif.C20.Props", "TsVerif.C20.Idempotent"], "TsVerif/C20/Audit.lean")
+    ctx.prove(["TsVerif.C20.Props", "TsVerif.C20.Idempotent", "TsVerif.C20.Round11", "TsVerif.C20.Round11b"], "TsVerif/C20/Audit.lean")
     driver = ctx.build_driver("tsv-c20")
     explorer = ctx.cargo_bin("c20", features="cli")
     if not (explorer and os.path.exists(driver)):
